@@ -500,7 +500,16 @@ func (w *world) judge(s *subscriber, init map[string]*tat, results []wres, write
 				removed = true
 			}
 		}
+		// the final version of the item, written by a call that started after PullID had returned, must have arrived
+		wroteAfter := false
+		for _, r := range results {
+			if r.ok && r.started > s.openedN && r.op.Kind != "delete" && r.op.ID == s.spec.ID && want != nil && asTat(m).GetDefaultString() == r.tag {
+				wroteAfter = true
+			}
+		}
 		switch {
+		case !closed && !removed && present && !defined && wroteAfter:
+			out = append(out, verdict{"C03/fold/" + s.spec.class() + "/nothing-received", fmt.Sprintf("no event although the final version of %q was written after PullID had returned\n%s", s.spec.ID, ctx())})
 		case closed && !removed:
 			out = append(out, verdict{"C03/pullid-closed-early/" + s.spec.class(), "PullID channel closed although the item was never removed\n" + ctx()})
 		case !closed && present && defined && !vk.SameMessage(view, want) && !inverted:
@@ -520,7 +529,7 @@ func lookup(m map[string]int, k string) (int, bool) {
 // ---------------------------------------------------------------------------------------------------------
 
 func run(r *vk.Run) {
-	r.Describe("subscribers (Value.Pull, Collection.Pull, PullID x seed/updates-only x backpressure on/off x read mask) opened at forced or random moments relative to 1-3 writers of uniquely tagged values; at the quiescent point after the writers returned the fold of the received events is compared with Get/List and each subscriber's delivery order with the commit order recorded under the write lock. Forced part: (F1) subscriber parked between snapshot and listen while writers run to quiescence, (F2) subscribe while a writer is parked at gau.beforeLock / *.beforePublish / bus.send.afterSnapshot, (F3) writer A parked before publishing while writer B commits and publishes, for every op pair and subscriber variant. Stress part: 1-3 writers x 1-4 subscribers opened at random instants with random consumer pacing and random yields at hook points. Distinct = scenario descriptor (forced) or (subscriber variants, outcome classes) (stress).",
+	r.Describe("subscribers (Value.Pull, Collection.Pull, PullID x seed/updates-only x backpressure on/off x read mask) opened at forced or random moments relative to 1-3 writers of uniquely tagged values; at the quiescent point after the writers returned the fold of the received events is compared with Get/List and each subscriber's delivery order with the commit order recorded under the write lock. Forced part: (F1) subscriber parked between snapshot and listen while writers run to quiescence, (F2) subscribe while a writer is parked at gau.beforeLock / *.beforePublish / bus.send.afterSnapshot, (F3) writer A parked before publishing while writer B commits and publishes, for every op pair and subscriber variant, (F4) a single write issued immediately after the subscribing call returned. Stress part: 1-3 writers x 1-4 subscribers opened at random instants with random consumer pacing and random yields at hook points. Distinct = scenario descriptor (forced) or (subscriber variants, outcome classes) (stress).",
 		"quiescence (all goroutines blocked in two identical dumps) stands for 'once writers stop and the reader has drained'",
 		"consumers keep receiving; a consumer that stops forever is C09/C10's subject")
 	forced(r)
@@ -580,6 +589,14 @@ func forced(r *vk.Run) {
 					for _, win := range []string{"gau.beforeLock", pubPoint, "bus.send.afterSnapshot", "bus.send.beforeListener"} {
 						scs = append(scs, scenario{Name: "F2-subscribe-in-writer-window", IsValue: isValue, Present: present, Sub: sub, A: p[0], B: p[1], Window: win})
 					}
+				}
+				// F4: one write issued right after the subscribing call returned, nothing in between and nothing after
+				for rep := 0; rep < 3; rep++ {
+					a := wop{Kind: "set"}
+					if !isValue {
+						a = wop{Kind: "upsert", ID: "a"}
+					}
+					scs = append(scs, scenario{Name: "F4-write-right-after-subscribe", IsValue: isValue, Present: present, Sub: sub, A: a, B: a, Window: "none"})
 				}
 				// F1: subscriber parked between snapshot and listen while writers run
 				for nw := 1; nw <= 3; nw++ {
@@ -663,6 +680,10 @@ func runForced(r *vk.Run, sched *vk.Sched, sc scenario) {
 		ts.Wait()
 		do(sc.B, 1)
 		writers = 1 // A and B do not overlap each other
+	case "F4-write-right-after-subscribe":
+		sub = w.subscribe(sc.Sub, nil)
+		do(sc.A, 0)
+		writers = 1
 	case "F1-writers-during-subscribe":
 		ps := sched.ParkAt(sc.Window, nil)
 		ts := vk.Go(func() { sub = w.subscribe(sc.Sub, nil) })
